@@ -1,10 +1,12 @@
 (* C05  script and style never survive unless AllowUnsafe(true).
    Proved for every policy value with allowUnsafe = false (a superset of what the builder can
    assemble: tables may name script/style, patterns may match them, the skip set may lack them)
-   and every token list. *)
+   and every token list.  For policies that in addition keep no comments and allow no other
+   raw-text element, the same is proved of the tokens a tokenizer reads from the output bytes
+   (C05_output_tokens). *)
 From Coq Require Import List NArith Bool.
 Import ListNotations.
-From BM Require Import Bytes Tokenizer Policy Loop LoopInv LoopProps.
+From BM Require Import Bytes Tokenizer Policy Loop LoopInv LoopProps SanRoundTrip TokenLevel.
 
 Definition tag_name (t : token) : bytes :=
   match t with TStart n _ | TEnd n | TSelf n _ => n | _ => [] end.
@@ -48,8 +50,21 @@ Section C05.
     (step I p st (TStart n a) = Ok st1 out1 \/ step I p st (TSelf n a) = Ok st1 out1) ->
     out1 = [] /\ step I p st1 (TText d) = Ok st1 [].
   Proof. exact (script_body_dropped I p safe). Qed.
+
+  Theorem C05_output_tokens : plain_policy I p -> forall s t, In t (tokenize (sanitize_bytes I p s)) ->
+    match t with
+    | TStart n _ | TEnd n | TSelf n _ => is_script_or_style n = false
+    | TText _ => True
+    | TComment _ | TDoctype _ => False
+    end.
+  Proof.
+    intros Hplain s t Hin. pose proof (output_token_provenance M U R I p Hplain s t Hin) as H.
+    destruct t as [d|n a|n|n a|d|d]; auto; try (destruct H as (_ & H & _); exact H).
+    destruct H as (_ & _ & H); exact H.
+  Qed.
 End C05.
 
 Print Assumptions C05_tags.
 Print Assumptions C05_literal_names.
 Print Assumptions C05_body.
+Print Assumptions C05_output_tokens.
